@@ -103,6 +103,11 @@ def generate(family, rng, tier, atomic_little=False):
                 r["n"] = free.pop(rng.randrange(len(free)))
         banks.append({"address": addrs[b], "regs": regs})
     p = {"busword": busword, "ordering": ordering, "paging": paging, "banks": banks}
+    if nb >= 2 and not atomic_little and rng.random() < 0.2:
+        # two CSR masters of different address widths on a csr_bus.InterconnectShared (a wide one listed first, a 14-bit one second); one
+        # bank sits on a page only the wide master can reach
+        p["shared_aw"] = [rng.choice([15, 16]), 14]
+        banks[-1]["address"] = (1 << 14) // (paging // 4) + rng.randrange(4)
     lay = layout(p)
     # literal per-cycle program
     ncyc = rng.randint(80, 200)
@@ -132,6 +137,8 @@ def generate(family, rng, tier, atomic_little=False):
                 st["bus"] = ["w", adr, rng.getrandbits(busword)]
             else:
                 st["bus"] = ["r", adr]
+            if "shared_aw" in p:
+                st["m"] = 0 if (adr >= (1 << 14) or rng.random() < 0.5) else 1
         dev = []
         for (bi, ri) in allregs:
             rg = banks[bi]["regs"][ri]
@@ -229,16 +236,21 @@ def build(p):
         objs.append(robjs)
     addr_of = {"bank%d" % bi: b["address"] for bi, b in enumerate(p["banks"])}
     top.submodules.src = src
-    top.submodules.arr = arr = csr_bus.CSRBankArray(src, lambda name, mem: addr_of.get(name), data_width=p["busword"], address_width=14,
+    aws = p.get("shared_aw")
+    top.submodules.arr = arr = csr_bus.CSRBankArray(src, lambda name, mem: addr_of.get(name), data_width=p["busword"], address_width=aws[0] if aws else 14,
                                                     paging=p["paging"], ordering=p["ordering"])
+    if aws:
+        masters = [csr_bus.Interface(data_width=p["busword"], address_width=a) for a in aws]
+        top.submodules.ic = csr_bus.InterconnectShared(masters, arr.get_buses())
+        return top, masters, objs, arr
     master = csr_bus.Interface(data_width=p["busword"], address_width=14)
     top.submodules.ic = csr_bus.Interconnect(master, arr.get_buses())
-    return top, master, objs, arr
+    return top, [master], objs, arr
 
 
 class Driver(Agent):
-    def __init__(self, master, objs, p, steps):
-        self.master, self.objs, self.p, self.steps = master, objs, p, steps
+    def __init__(self, masters, objs, p, steps):
+        self.masters, self.objs, self.p, self.steps = masters, objs, p, steps
         self.reads = ()
         self.prev_we = []
         self.n = 0
@@ -247,10 +259,12 @@ class Driver(Agent):
         return self.n > len(self.steps) + 3
 
     def step(self, v, t, w):
-        m = self.master
         self.n = t
-        w(m.we, 0)
-        w(m.re, 0)
+        for m in self.masters:         # (a master that is not accessing drives zeros: InterconnectShared ORs the masters together)
+            w(m.we, 0)
+            w(m.re, 0)
+            w(m.adr, 0)
+            w(m.dat_w, 0)
         for o in self.prev_we:
             w(o.we, 0)
         self.prev_we = []
@@ -259,6 +273,7 @@ class Driver(Agent):
         st = self.steps[t]
         if "bus" in st:
             b = st["bus"]
+            m = self.masters[st.get("m", 0)]
             w(m.adr, b[1])
             if b[0] == "w":
                 w(m.we, 1)
@@ -287,7 +302,8 @@ def run(scn):
     p = scn["params"]
     bw = p["busword"]
     lay = layout(p)
-    top, master, objs, arr = build(p)
+    top, masters, objs, arr = build(p)
+    master = masters[0]
     viols = []
 
     def V(cls, obs, msg, cycle=None):
@@ -346,8 +362,24 @@ def run(scn):
                     add((bi, ri, "fld", f["name"]), getattr(o.fields, f["name"]))
     rows = []
     bench = Bench(wrap_top(top), max_cycles=len(scn["steps"]) + 12, tail=2, fingerprint=False)
-    bench.add(Driver(master, objs, p, scn["steps"]))
-    bench.add(PortRecorder(sigs, lambda t, row: rows.append(row)))
+    bench.add(Driver(masters, objs, p, scn["steps"]))
+    if len(masters) > 1:
+        # the access of a cycle is whatever the active master presents (the other one drives zeros); both masters must see the same read data
+        m1 = masters[1]
+        extra = [m1.adr, m1.we, m1.re, m1.dat_w, m1.dat_r]
+        n0 = len(sigs)
+
+        def rec(t, row):
+            a = list(row[:n0])
+            e = row[n0:]
+            if e[4] != a[4]:
+                V("read_data", "bus.dat_r", "cycle %d: the two masters of the shared interconnect see different read data (%#x / %#x)" % (t, a[4], e[4]), t)
+            for i_ in range(4):
+                a[i_] |= e[i_]
+            rows.append(a)
+        bench.add(PortRecorder(sigs + extra, rec))
+    else:
+        bench.add(PortRecorder(sigs, lambda t, row: rows.append(row)))
     bench.run()
     # ---- model
     apg = p["paging"] // 4
@@ -482,7 +514,7 @@ def run(scn):
         exp_dat_r = nxt_dat_r
     stats = {"cycles": bench.cycle["sys"], "checks": checks, "nontrivial": bool(multi and readback and (races or foreign)),
              "faults": {"dev_write_race": races, "foreign_address_access": foreign},
-             "probes": {"multiword_writes": multi, "reads": readback, "busword_%d" % bw: 1, "ordering_" + p["ordering"]: 1}}
+             "probes": {"multiword_writes": multi, "reads": readback, "busword_%d" % bw: 1, "ordering_" + p["ordering"]: 1, "shared_two_masters": int("shared_aw" in p)}}
     return {"violations": viols, "digest": bench.digest() if bench.log else __import__("hashlib").sha256(repr(rows[:200]).encode()).hexdigest()[:16],
             "stats": stats}
 
